@@ -3,7 +3,8 @@ from props.common import other_tasks, contract_tasks, TRUSTED_CORE, SCHED_ASSUMP
 PROPERTY = "C07"
 def tasks(tier):
     return (contract_tasks("contracts.scheduler", "C07")
-            + other_tasks("contracts.closure", "C07", "bounded") + other_tasks("contracts.determinism_bounded", "C07", "bounded"))
+            + other_tasks("contracts.closure", "C07", "bounded") + other_tasks("contracts.determinism_bounded", "C07", "bounded")
+            + contract_tasks("contracts.tiered_time", "C08"))
 TRUSTED_BASE = TRUSTED_CORE
 ASSUMPTIONS = SCHED_ASSUMPTIONS
 NOT_COVERED = ["the promise as a whole-run statement ('not stepped in (t, m] for an outside reason') needs a history invariant PM over all later schedule_step calls of other simulators; it is NOT built. Decided: the function computing m (exact characterisation: the minimum over triggering ancestors of their next / current step plus distance, capped by until), and the closure it reads by a bounded stand-in", 'triggering_ancestors (cache_triggering_ancestors) by a bounded stand-in only']
